@@ -159,6 +159,7 @@ func runC19(c *Ctx) {
 		})
 		R.Ob("(*lineLimitReader).Read/refuses in the loop and on entry", c.P.Pos(f.Pos()), nErr == 2, fmt.Sprintf("%d refusal sites", nErr))
 	}
+	ruleLimiterBypass(c)
 	R.Rule("R-linelimit-restored", "E2 must-pass-through", "whoever lifts the line limit (LineLimit=0) restores it from MaxLineLength on every path before returning", 1)
 	nLift := 0
 	for _, f := range c.P.AllFuncs() {
@@ -230,4 +231,33 @@ func reachableThroughLoop(f *ssa.Function, in ssa.Instruction) bool {
 		}
 	}
 	return false
+}
+
+// ruleLimiterBypass: while the limit is lifted (LineLimit == 0, during a BDAT
+// chunk) octets must not be counted towards the current line; otherwise the
+// count left behind by a binary payload refuses the next command line once
+// the limit is restored.
+func ruleLimiterBypass(c *Ctx) {
+	R := c.R
+	_, s := c.Std()
+	R.Rule("R-linelimit-bypass-uncounted", "E3 edge-feasibility", "with the limit lifted (LineLimit == 0) lineLimitReader.Read neither counts octets nor refuses", 2)
+	f := c.A.Func("(*lineLimitReader).Read")
+	if f == nil {
+		return
+	}
+	n := 0
+	for _, st := range s.Find(f, "st:lineLimitReader.curLineLength") {
+		_, _, v := storedField(st)
+		if k, ok := constInt(v); ok && k == 0 {
+			continue
+		}
+		n++
+		c.obUnreach("count advanced", st, `lineLimitReader.LineLimit == 0`)
+	}
+	R.Ob("(*lineLimitReader).Read/counts octets", c.P.Pos(f.Pos()), n >= 1, "no increment of the line length found")
+	allInstrs(f, func(in ssa.Instruction) {
+		if r, ok := in.(*ssa.Return); ok && len(r.Results) == 2 && describe(r.Results[1]) == "ErrTooLongLine" {
+			c.obUnreach("refusal", in, `lineLimitReader.LineLimit == 0`)
+		}
+	})
 }
